@@ -10,7 +10,7 @@
    codec built from an executable model of gzip decompression that is compared with the real zlib on every run (below).
    Only statements here; proofs are `exact <lemma>`. *)
 From Coq Require Import List Arith Bool NArith ZArith.
-From RxVerif Require Import Compress.Inflate Compress.InflateProofs Compress.DeflateEnc Compress.DeflateEncProofs.
+From RxVerif Require Import Compress.Inflate Compress.InflateProofs Compress.DeflateEnc Compress.DeflateEncProofs Compress.DeflateLz Compress.DeflateLzProofs Compress.DeflateDyn Compress.DeflateDynProofs.
 From RxVerif Require Import Compress.Wrapper Compress.WrapperProofs Compress.InflateCodec.
 Import ListNotations.
 
@@ -128,9 +128,9 @@ Print Assumptions C16_unrepaired_zstd_wrapper_refuted.
    stream the model accepts, Huffman blocks included); Done implies the CRC-32 / ISIZE trailer matches; the stored
    encoder round-trips every byte list; and the laws H1-H3 hold for the codec built from the model, so that the
    round-trip and truncation theorems above hold for it without premises.
-   Proved for the fixed-Huffman code (literals and distance-1 runs) by an encoder round trip; not proved: that inflate's
-   OUTPUT on dynamic-Huffman blocks and on matches at distances above 1 is what RFC 1951 means (tied by the comparison
-   with zlib only); zlib's compressor; zstandard (not modelled at all).
+   Proved by encoder round trips: the fixed-Huffman code with arbitrary LZ77 matches, and one dynamic-Huffman block with a
+   fixed complete code; not proved: that inflate's OUTPUT on ARBITRARY dynamic codes and multi-block streams is what RFC 1951
+   means (tied by the comparison with zlib only); zlib's compressor; zstandard (not modelled at all).
    --------------------------------------------------------------------------------------------- *)
 Theorem C16_gunzip_complete_stream_stays_complete : forall p d r,
   gunzip p = Done d r -> forall x, gunzip (p ++ x) = Done d (r ++ x).
@@ -171,6 +171,21 @@ Print Assumptions C16_gunzip_inverts_fixed_huffman_literals.
 Theorem C16_gunzip_inverts_fixed_huffman_runs : forall d, bytes d -> gunzip (gzip_fixed_rle d) = Done d [].
 Proof. exact gunzip_fixed_rle_roundtrip. Qed.
 Print Assumptions C16_gunzip_inverts_fixed_huffman_runs.
+(* ... and general LZ77 tokens (literal | match of length 3..258 at distance 1..32768 within the output so far, overlapping
+   copies included): every length and distance symbol with its extra bits, both branches of the window copy; a greedy
+   compressor built on them round-trips; and one DYNAMIC-Huffman block with a hand-chosen complete code (header parsing,
+   code-length alphabet with repeat code 16, canonical tree construction with its Kraft check, decoding along the tree the
+   model built).  The real zlib returns the payload for the streams of all these encoders. *)
+Theorem C16_gunzip_inverts_lz77_tokens : forall ts d, toks_ok2 [] ts -> lz_expand ts = d ->
+  gunzip (gz_tokens2 ts d) = Done d [].
+Proof. exact gunzip_gz_tokens2. Qed.
+Print Assumptions C16_gunzip_inverts_lz77_tokens.
+Theorem C16_gunzip_inverts_greedy_lz_compressor : forall w d, bytes d -> gunzip (gzip_lz w d) = Done d [].
+Proof. exact gunzip_lz_roundtrip. Qed.
+Print Assumptions C16_gunzip_inverts_greedy_lz_compressor.
+Theorem C16_gunzip_inverts_a_dynamic_huffman_block : forall d, bytes d -> gunzip (gzip_dynamic d) = Done d [].
+Proof. exact gunzip_dynamic_roundtrip. Qed.
+Print Assumptions C16_gunzip_inverts_a_dynamic_huffman_block.
 (* the round-trip and truncation statements for the gzip codec of the model: no premises left *)
 Theorem C16_gzip_model_roundtrip_any_rechunking : forall (skip : bool) (chunks rechunk : list (list Z)),
   concat rechunk = payload (concat (gz_compress chunks)) ->
